@@ -68,6 +68,19 @@ static void work_until_empty(void) {
   }
 }
 
+/* A long session that never found the fifo empty: in_count and out_count have both grown by
+ * `wq_base` (the worker only rebases them when it drains the queue).  Applied once, right
+ * after the first START of the run, before the worker's first get_work: exactly the state
+ * wq_base further push/get_work pairs would have produced. */
+static unsigned long long wq_base;
+static int wq_based;
+__attribute__((no_sanitize_thread, noinline)) static void apply_base(void) {
+  if (!wq_base || wq_based) return;
+  wq_based = 1;
+  *(volatile int64_t*)&wq.in_count += (int64_t)wq_base;
+  *(volatile int64_t*)&wq.out_count += (int64_t)wq_base;
+}
+
 static void do_op(int t, const char* op) {
   (void)t;
   if (op[0] == 'y') {
@@ -81,12 +94,16 @@ static void do_op(int t, const char* op) {
   vr_note("call push %ld %d", v, id);
   int r = work_queue_push(&wq, nodes[id]);
   vr_note("ret push %d", r);
-  if (r == WORK_QUEUE_START_WORKING) work_until_empty();
+  if (r == WORK_QUEUE_START_WORKING) {
+    apply_base();
+    work_until_empty();
+  }
 }
 
 int main(int argc, char** argv) {
   if (argc < 2) return 2;
   vh_parse(argv[1]);
+  if (argc > 2) wq_base = strtoull(argv[2], 0, 10);
   VH_DIRTY(wq);
   if (!work_queue_init(&wq)) return 2;
   name_node(wq.fifo.head); /* n1 = initial stub */
@@ -94,7 +111,7 @@ int main(int argc, char** argv) {
   vr_reg(&wq.out_count, sizeof wq.out_count, "out_count");
   vr_reg(&wq.fifo.head, sizeof wq.fifo.head, "head");
   vr_reg(&wq.fifo.tail, sizeof wq.fifo.tail, "tail");
-  vr_note("init workqueue");
+  vr_note("init workqueue %llu", wq_base);
   vh_run(do_op);
   /* quiescent now: one more push must be told to start working and must find exactly its
    * own item — otherwise something was left behind with no worker */
